@@ -508,6 +508,37 @@ func (c *Ctx) checkGapRecurrence() {
 	}
 	okArr := false
 	det := "extension or opening store of maxa[j] not found"
+	// written as one store of max(extended, opened)
+	if ext == nil || open == nil {
+		for b := range main.Blocks {
+			for _, in := range b.Instrs {
+				st, ok := in.(*ssa.Store)
+				if !ok {
+					continue
+				}
+				ia, ok := st.Addr.(*ssa.IndexAddr)
+				if !ok || !loadsField(ia.X, "maxa") {
+					continue
+				}
+				x, y, isMax := maxExpr(st.Val)
+				if !isMax {
+					continue
+				}
+				for _, pr := range [][2]ssa.Value{{x, y}, {y, x}} {
+					old, isExt := isExtendOf(pr[0])
+					if !isExt || !isOpen(pr[1]) {
+						continue
+					}
+					if u, ok := old.(*ssa.UnOp); ok {
+						if oia, ok := u.X.(*ssa.IndexAddr); ok && loadsField(oia.X, "maxa") && lc.of(oia.Index).equal(lc.of(ia.Index)) {
+							okArr = true
+							det = "maxa[j] = max(maxa[j] + gapextend, matrix[i-1][j] + gapopen)"
+						}
+					}
+				}
+			}
+		}
+	}
 	if ext != nil && open != nil {
 		// open store is the true successor of `open value > load maxa[j]` where that load follows ext
 		ob := open.Block()
@@ -561,6 +592,11 @@ func (c *Ctx) checkGapRecurrence() {
 					opened = se
 				}
 			}
+			if x, y, isMax := maxExpr(sel); isMax && extended != nil && opened != nil && ((x == extended && y == opened) || (x == opened && y == extended)) {
+				okReg = true
+				det2 = "running value = max(extended, opened)"
+				continue
+			}
 			if extended == nil || opened == nil {
 				det2 = "the running value is not a selection between (old + gapextend) and (matrix cell + gapopen)"
 				continue
@@ -582,7 +618,7 @@ func (c *Ctx) checkGapRecurrence() {
 					}
 				}
 			}
-			okReg = good
+			okReg = okReg || good
 			det2 = fmt.Sprintf("selection between extended and opened value under `opened > extended`: %v", good)
 		}
 	}
@@ -647,4 +683,62 @@ func isMatrixCellLoad(v ssa.Value) bool {
 	}
 	_, f, base := loadedField(ria.X)
 	return base != nil && f == "matrix"
+}
+
+// maxExpr: v is the larger of two values: a φ of x and y selected by a comparison of x with y that
+// sends the larger one down each branch (ties may go either way: the value is the same), or a call
+// of the builtin max / math.Max.
+func maxExpr(v ssa.Value) (ssa.Value, ssa.Value, bool) {
+	if call, ok := v.(*ssa.Call); ok {
+		cc := call.Common()
+		if (builtinName(cc) == "max" || isPkgFunc(cc, "math", "Max")) && len(cc.Args) == 2 {
+			return cc.Args[0], cc.Args[1], true
+		}
+		return nil, nil, false
+	}
+	sel, ok := v.(*ssa.Phi)
+	if !ok || len(sel.Edges) != 2 {
+		return nil, nil, false
+	}
+	sb := sel.Block()
+	d := sb.Idom()
+	if d == nil || len(d.Instrs) == 0 {
+		return nil, nil, false
+	}
+	ifi, ok := d.Instrs[len(d.Instrs)-1].(*ssa.If)
+	if !ok || d.Succs[0] == d.Succs[1] {
+		return nil, nil, false
+	}
+	bo, ok := ifi.Cond.(*ssa.BinOp)
+	if !ok {
+		return nil, nil, false
+	}
+	var vt, vf ssa.Value
+	for i, e := range sel.Edges {
+		p := sb.Preds[i]
+		viaT := (p == d && d.Succs[0] == sb) || (d.Succs[0] != sb && (d.Succs[0] == p || d.Succs[0].Dominates(p)))
+		viaF := (p == d && d.Succs[1] == sb) || (d.Succs[1] != sb && (d.Succs[1] == p || d.Succs[1].Dominates(p)))
+		if viaT == viaF {
+			return nil, nil, false
+		}
+		if viaT {
+			vt = e
+		} else {
+			vf = e
+		}
+	}
+	if vt == nil || vf == nil {
+		return nil, nil, false
+	}
+	switch bo.Op {
+	case token.GTR, token.GEQ:
+		if bo.X == vt && bo.Y == vf {
+			return vt, vf, true
+		}
+	case token.LSS, token.LEQ:
+		if bo.Y == vt && bo.X == vf {
+			return vt, vf, true
+		}
+	}
+	return nil, nil, false
 }
